@@ -10,7 +10,7 @@
 From Coq Require Import List NArith ZArith.
 From Coq.Strings Require Import Byte.
 From SP Require Import Bytes Params Msgpack Crypto Errors Packets Chunker Rand Sign Verify Encrypt Decrypt Signcrypt Spec
-     AcceptDefs AcceptSignProofs AcceptEncProofs AcceptScProofs.
+     AcceptDefs AcceptSignProofs AcceptEncProofs AcceptScProofs AcceptScSymProofs.
 Import ListNotations.
 Open Scope N_scope.
 
@@ -63,12 +63,30 @@ Theorem C09_accepts_signcryption (p : S_sc) (sk : bytes) (i : nat) (signers : si
         Ok (option_map (ed_pub c) (sc_signer p), concat (sc_chunks p)))
   \/ S_identifier_collision c p sk i.
 Proof. exact (spec_signcryption_accepted_box c Hc p sk i signers rv). Qed.
+
+(* ... and by a holder of a symmetric key whose resolver knows only genuine (identifier, key) pairs *)
+Theorem C09_accepts_signcryption_sym (p : S_sc) (i : nat) (key ident : bytes) (rsl : list (bytes * bytes))
+        (signers : sigring) :
+  sc_params_ok c p ->
+  nth_error (sc_rcpts p) i = Some (S_SymR key ident) ->
+  resolve rsl ident = Some key ->
+  S_resolver_genuine c rsl p ->
+  (forall s, sc_signer p = Some s -> In (ed_pub c s) signers) ->
+  let kr := mkRing [] None in
+  exists chunks,
+      signcrypt_open_stream c kr signers (Some rsl) (S_encode_signcryption c p) =
+        Ok (option_map (ed_pub c) (sc_signer p), mkOut chunks EOF) /\
+      concat chunks = concat (sc_chunks p) /\
+      signcrypt_open_all c kr signers (Some rsl) (S_encode_signcryption c p) =
+        Ok (option_map (ed_pub c) (sc_signer p), concat (sc_chunks p)).
+Proof. exact (spec_signcryption_accepted_sym c Hc p i key ident rsl signers). Qed.
 End C09.
 
 Print Assumptions C09_accepts_attached.
 Print Assumptions C09_accepts_detached.
 Print Assumptions C09_accepts_encryption.
 Print Assumptions C09_accepts_signcryption.
+Print Assumptions C09_accepts_signcryption_sym.
 
 (* Non-vacuity: a foreign-looking message (tiny chunks, minor version 7, extra elements) is accepted on the toy instance. *)
 From SP Require Import ToyCrypto ToyCryptoProofs.
